@@ -10,117 +10,6 @@ from . import astq, symidx, seqdom
 from .program import rel, AnalysisError
 from .poly import P
 
-CONCAT = {"numpy.concatenate", "numpy.hstack", "numpy.vstack", "numpy.append", "numpy.row_stack"}
-
-
-def _cat_parts(prog, fi, e):
-    """np.concatenate((a, b)) / hstack / vstack([a, b]) / np.append(a, b) -> [a, b]"""
-    if isinstance(e, ast.Call) and astq.callee_name(prog, fi, e) in CONCAT and e.args:
-        if astq.callee_name(prog, fi, e) == "numpy.append" and len(e.args) >= 2:
-            return [e.args[0], e.args[1]]
-        a = e.args[0]
-        if isinstance(a, (ast.Tuple, ast.List)):
-            return list(a.elts)
-    return None
-
-
-def _strip_scalar(e):
-    """alpha * X -> X"""
-    if isinstance(e, ast.BinOp) and isinstance(e.op, ast.Mult):
-        for a, b in ((e.left, e.right), (e.right, e.left)):
-            if isinstance(b, (ast.Call, ast.Subscript, ast.Name)) and not isinstance(a, ast.Call):
-                return b
-        return e.right
-    return e
-
-
-def _setup_vec(e, plist):
-    """MSarr_list[s][:, k] or MSarr_list[s] -> s expr"""
-    cur = e
-    if isinstance(cur, ast.Subscript) and isinstance(cur.value, ast.Subscript):
-        cur = cur.value
-    if isinstance(cur, ast.Subscript) and isinstance(cur.value, ast.Name) and cur.value.id == plist and not isinstance(cur.slice, (ast.Slice, ast.Tuple)):
-        return cur.slice
-    return None
-
-
-def _is_ref_of(e, pref):
-    """reflist[s] -> s expr"""
-    if isinstance(e, ast.Subscript) and isinstance(e.value, ast.Name) and e.value.id == pref and not isinstance(e.slice, (ast.Slice, ast.Tuple)):
-        return e.slice
-    return None
-
-
-def _mask_of(prog, fi, m, pref):
-    """np.isin(np.arange(n), reflist[r]) -> (r, False);  ~that / logical_not(that) -> (r, True)"""
-    neg = False
-    if isinstance(m, ast.UnaryOp) and isinstance(m.op, ast.Invert):
-        neg, m = True, m.operand
-    elif isinstance(m, ast.Call) and astq.callee_name(prog, fi, m) == "numpy.logical_not" and m.args:
-        neg, m = True, m.args[0]
-    if isinstance(m, ast.Call) and astq.callee_name(prog, fi, m) in ("numpy.isin", "numpy.in1d") and len(m.args) >= 2:
-        r = _is_ref_of(m.args[1], pref)
-        inv = astq.kwarg(m, "invert")
-        if isinstance(inv, ast.Constant) and inv.value is True:
-            neg = not neg
-        if r is not None and isinstance(m.args[0], ast.Call) and astq.callee_name(prog, fi, m.args[0]) == "numpy.arange":
-            return r, neg
-    return None
-
-
-KIND = {}
-
-
-def _ref_rows(prog, fi, e, plist, pref):
-    """V_s[reflist[s']] / MSarr_list[s][reflist[s'], k] -> (s, s'); the order kind ('listed' / 'ascending') is recorded in KIND[id(e)]"""
-    if not isinstance(e, ast.Subscript):
-        return None
-    el = astq.index_elts(e)
-    r = _is_ref_of(el[0], pref)
-    kind = "listed"
-    if r is None:
-        mk = _mask_of(prog, fi, el[0], pref)
-        if mk is None or mk[1]:
-            return None
-        r, kind = mk[0], "ascending"
-    KIND[id(e)] = kind
-    base = e.value
-    s = _setup_vec(base, plist)
-    if s is None and isinstance(base, ast.Subscript) and isinstance(base.value, ast.Name) and base.value.id == plist:
-        s = base.slice
-    return (s, r) if s is not None else None
-
-
-def _rov_rows(prog, fi, e, plist, pref):
-    """np.delete(V_s, reflist[s'] [, axis=0]) -> (s, s')"""
-    if isinstance(e, ast.Call) and astq.callee_name(prog, fi, e) == "numpy.delete" and len(e.args) >= 2:
-        s = _setup_vec(e.args[0], plist)
-        r = _is_ref_of(e.args[1], pref)
-        ax = astq.kwarg(e, "axis", 2)
-        if ax is not None and not (isinstance(ax, ast.Constant) and ax.value == 0):
-            return None
-        if s is not None and r is not None:
-            return (s, r)
-    if isinstance(e, ast.Subscript):
-        el = astq.index_elts(e)
-        mk = _mask_of(prog, fi, el[0], pref)
-        if mk is not None and mk[1]:
-            s = _setup_vec(e.value, plist)
-            if s is None and isinstance(e.value, ast.Subscript) and isinstance(e.value.value, ast.Name) and e.value.value.id == plist:
-                s = e.value.slice
-            if s is not None:
-                return (s, mk[0])
-    return None
-
-
-def same(a, b):
-    return a is not None and b is not None and astq.dump(a) == astq.dump(b)
-
-
-def is_const(e, v):
-    return isinstance(e, ast.Constant) and e.value == v
-
-
 def _verdict(actual, expected):
     """(ok, text): None if the computed order contains an unrecognised part, else equality of the canonical forms"""
     why = seqdom.opaque(seqdom.normalise(actual))
@@ -272,96 +161,7 @@ def _stack_ref_mov(prog, run, rule, fi, f):
         run.ob(rule, fi.qual, "per-setup record stack", None, "vstack((ref, mov)) not found", file=f)
 
 
-def sd_preger(prog, run, rule):
-    fi = prog.func("functions.fdd.SD_PreGER")
-    f = rel(prog.mods[fi.mod].path)
-
-    def ob(role, ok, detail, node=None):
-        run.ob(rule, fi.qual, role, ok, detail, witness=detail[:90], file=f, node=node)
-    _stack_ref_mov(prog, run, rule, fi, f)
-    # Gyy[ii] = hstack((Sy_allref, Sy_allmov)) : columns [ref | mov]
-    hs = [n for n in ast.walk(fi.node) if isinstance(n, ast.Call) and astq.callee_name(prog, fi, n) == "numpy.hstack" and n.args and isinstance(n.args[0], (ast.Tuple, ast.List)) and len(n.args[0].elts) == 2]
-    for h in hs:
-        a, b = [astq.expr_at(fi, h, e) for e in h.args[0].elts]
-        def second_operand(x):
-            cs = [c for c in ast.walk(x) if isinstance(c, ast.Call) and astq.callee_name(prog, fi, c).endswith(".SD_est") and len(c.args) >= 2]
-            return astq.src(astq.expr_at(fi, h, cs[0].args[1])) if cs else ""
-        sa_, sb = second_operand(a), second_operand(b)
-        ok = "'ref'" in sa_ and "'mov'" in sb
-        ob("column blocks of a setup's spectrum = [against references | against roving]", ok, f"hstack((.. vs {sa_[-12:]}, .. vs {sb[-12:]}))", h)
-    # the merged line: vstack([mean reference block, vstack(per-setup roving blocks)])
-    rets = [n for n in ast.walk(fi.node) if isinstance(n, ast.Return) and isinstance(n.value, ast.Tuple)]
-    vs = [n for n in ast.walk(fi.node) if isinstance(n, ast.Call) and astq.callee_name(prog, fi, n) == "numpy.vstack" and n.args and isinstance(n.args[0], (ast.List, ast.Tuple)) and len(n.args[0].elts) == 2
-          and "'ref'" not in astq.src(n)]
-    if not vs:
-        return ob("merged rows", None, "vstack([reference block, roving blocks]) not found")
-    v = vs[-1]
-    a, b = [astq.expr_at(fi, v, e) for e in v.args[0].elts]
-    sa_, sb = astq.src(a, 400), astq.src(b, 2000)
-    is_mean = "np.sum" in sa_ or "np.mean" in sa_
-    has_inv = "linalg.inv" in sb or "linalg.solve" in sb or "linalg.pinv" in sb
-    ok = is_mean and has_inv and not ("linalg.inv" in sa_)
-    ob("merged rows = [mean reference block ; roving blocks]", ok, "reference block first" if ok else "roving blocks placed before the reference block / blocks not recognised", v)
-    # roving blocks: list comprehension over range(n_setup) ascending, rows [n_ref:, :n_ref], inverse of [:n_ref, :n_ref]
-    comps = [c for c in ast.walk(b) if isinstance(c, ast.ListComp)]
-    if not comps:
-        return ob("roving blocks in setup order", None, "per-setup list comprehension not found")
-    c = comps[0]
-    se = symidx.SymEval(prog, fi)
-    rg = symidx.range_args(se, symidx.is_range(prog, fi, c.generators[0].iter)) if symidx.is_range(prog, fi, c.generators[0].iter) is not None else None
-    ob("roving blocks in ascending setup order", rg is not None and rg[0] == P.c(0) and rg[2] == P.c(1), f"range({', '.join(map(repr, rg)) if rg else '?'})", v)
-    ok_mov = ok_ref = False
-    seen_w = []
-    for sub in ast.walk(c.elt):
-        if isinstance(sub, ast.Subscript):
-            el = astq.index_elts(sub)
-            if len(el) == 2 and all(isinstance(x, ast.Slice) and x.step is None for x in el):
-                r, cc = el
-                if r.lower is not None and r.upper is None and cc.lower is None and cc.upper is not None and astq.dump(r.lower) == astq.dump(cc.upper):
-                    ok_mov = True
-                    seen_w.append("[n:, :n]")
-                elif r.lower is None and r.upper is not None and cc.lower is None and cc.upper is not None and astq.dump(r.upper) == astq.dump(cc.upper):
-                    ok_ref = True
-                    seen_w.append("[:n, :n]")
-                elif not (astq.is_full_slice(r) and astq.is_full_slice(cc)):
-                    seen_w.append(astq.src(sub.slice, 30))
-    m_mov, m_ref = seen_w, ""
-    ob("transfer block = rows of the roving channels x columns of the references; inverse of the reference-reference block", ok_mov and ok_ref,
-       f"row/column windows {m_mov} and {m_ref}", v)
-    # matrix normal form of a roving block: MOV . REF^-1 . MEAN  (right multiplication by the un-transposed inverse)
-    nf = astq.matnf(prog, fi, c.elt)
-
-    def role(x):
-        for sub in ast.walk(x):
-            if isinstance(sub, ast.Subscript):
-                el = astq.index_elts(sub)
-                if len(el) == 2 and all(isinstance(z, ast.Slice) for z in el):
-                    r, cc = el
-                    if r.lower is not None and r.upper is None and cc.lower is None and cc.upper is not None:
-                        return "MOV"
-                    if r.lower is None and r.upper is not None and cc.lower is None and cc.upper is not None:
-                        return "REF"
-        t = astq.src(x, 400)
-        if "np.sum" in t or "np.mean" in t or ".mean(" in t:
-            return "MEAN"
-        return "?"
-    if nf is None:
-        ob("roving block = G_mov,ref . inv(G_ref,ref) . mean(G_ref,ref)", None, f"matrix expression `{astq.src(c.elt, 80)}` not in product/inverse/transpose form", v)
-    else:
-        sig = [(role(x) if role(x) != "REF" or True else "REF", i, t) for x, i, t in nf]
-        # a MEAN atom contains REF windows too: classify by the outermost content
-        sig2 = []
-        for (x, i, t) in nf:
-            txt = astq.src(x, 400)
-            r = "MEAN" if ("np.sum" in txt or "np.mean" in txt) else role(x)
-            sig2.append((r, i, t))
-        want = [("MOV", False, False), ("REF", True, False), ("MEAN", False, False)]
-        okn = sig2 == want
-        pretty = " . ".join(f"{r}{'^-1' if i else ''}{'^T' if t else ''}" for r, i, t in sig2)
-        ob("roving block = G_mov,ref . inv(G_ref,ref) . mean(G_ref,ref)", okn, f"normal form: {pretty}" + ("" if okn else " (the spectral blocks are Hermitian, not symmetric: a transposed inverse is a different matrix)"), v)
-
-
-WHICH = {"merge": merge, "flatten": flatten, "pre": pre, "ssi_ms": ssi_ms, "sd_preger": sd_preger}
+WHICH = {"merge": merge, "flatten": flatten, "pre": pre, "ssi_ms": ssi_ms}
 
 
 def order_obligations(prog, run, rule, which):
